@@ -13,21 +13,28 @@ import (
 
 	"github.com/tink-crypto/tink-go/v2/aead"
 	"github.com/tink-crypto/tink-go/v2/aead/aesgcm"
+	"github.com/tink-crypto/tink-go/v2/insecurecleartextkeyset"
 	"github.com/tink-crypto/tink-go/v2/internal/internalapi"
+	"github.com/tink-crypto/tink-go/v2/internal/protoserialization"
 	"github.com/tink-crypto/tink-go/v2/key"
 	"github.com/tink-crypto/tink-go/v2/keyset"
 	"github.com/tink-crypto/tink-go/v2/mac"
 	"github.com/tink-crypto/tink-go/v2/mac/hmac"
+	kmsepb "github.com/tink-crypto/tink-go/v2/proto/kms_envelope_go_proto"
 	tinkpb "github.com/tink-crypto/tink-go/v2/proto/tink_go_proto"
 	"github.com/tink-crypto/tink-go/v2/signature"
 	"github.com/tink-crypto/tink-go/v2/verifharness/internal/detrand"
 	"github.com/tink-crypto/tink-go/v2/verifharness/internal/evid"
 	"github.com/tink-crypto/tink-go/v2/verifharness/internal/gen"
 	"github.com/tink-crypto/tink-go/v2/verifharness/internal/kf"
+	"github.com/tink-crypto/tink-go/v2/verifharness/internal/legacykm"
 	"github.com/tink-crypto/tink-go/v2/verifharness/internal/tk"
 )
 
-func TestMain(m *testing.M) { evid.Main(m) }
+func TestMain(m *testing.M) {
+	legacykm.Register() // key managers for harness-owned type URLs: Manager.Add's legacy-registry branch
+	evid.Main(m)
+}
 
 type mEntry struct {
 	id      uint32
@@ -129,6 +136,13 @@ func withPrefix(kt *tinkpb.KeyTemplate, p tinkpb.OutputPrefixType) *tinkpb.KeyTe
 	return c
 }
 
+// envelopeTemplate builds a KmsEnvelopeAeadKey template by hand (the library helper refuses DEK
+// templates that are not AEAD ones; the key manager must refuse them too).
+func envelopeTemplate(uri string, dek *tinkpb.KeyTemplate) *tinkpb.KeyTemplate {
+	v := tk.Must(proto.Marshal(&kmsepb.KmsEnvelopeAeadKeyFormat{KekUri: uri, DekTemplate: dek}))
+	return &tinkpb.KeyTemplate{TypeUrl: "type.googleapis.com/google.crypto.tink.KmsEnvelopeAeadKey", Value: v, OutputPrefixType: tinkpb.OutputPrefixType_RAW}
+}
+
 type tmpl struct {
 	name  string
 	kt    *tinkpb.KeyTemplate
@@ -151,6 +165,16 @@ func templates() []tmpl {
 		{"UNKNOWN_PREFIX", withPrefix(aead.AES128GCMKeyTemplate(), tinkpb.OutputPrefixType_UNKNOWN_PREFIX), false, false},
 		{"unregistered-url", &tinkpb.KeyTemplate{TypeUrl: "type.googleapis.com/verif.DoesNotExist", OutputPrefixType: tinkpb.OutputPrefixType_TINK}, false, false},
 		{"bad-key-size", badSize, false, false},
+		// key types without a parameters parser: Manager.Add falls back to the key-manager registry
+		// (registry.NewKeyData, NewKeySerialization, ParseKey -> fallback key)
+		{"legacy-mac/TINK", &tinkpb.KeyTemplate{TypeUrl: legacykm.MacURL, OutputPrefixType: tinkpb.OutputPrefixType_TINK}, true, false},
+		{"legacy-aead/RAW", &tinkpb.KeyTemplate{TypeUrl: legacykm.AeadURL, OutputPrefixType: tinkpb.OutputPrefixType_RAW}, true, true},
+		{"legacy-signer/LEGACY", &tinkpb.KeyTemplate{TypeUrl: legacykm.SignerURL, OutputPrefixType: tinkpb.OutputPrefixType_LEGACY}, true, false},
+		{"legacy-daead/CRUNCHY", &tinkpb.KeyTemplate{TypeUrl: legacykm.DaeadURL, OutputPrefixType: tinkpb.OutputPrefixType_CRUNCHY}, true, false},
+		{"legacy-mac/refused-format", &tinkpb.KeyTemplate{TypeUrl: legacykm.MacURL, Value: legacykm.RefusedFormat, OutputPrefixType: tinkpb.OutputPrefixType_TINK}, false, false},
+		{"legacy-aead/UNKNOWN_PREFIX", &tinkpb.KeyTemplate{TypeUrl: legacykm.AeadURL, OutputPrefixType: tinkpb.OutputPrefixType_UNKNOWN_PREFIX}, false, false},
+		{"kms-envelope/AES128GCM-dek", tk.Must(aead.CreateKMSEnvelopeAEADKeyTemplate("fake-kms://c11-kek", aead.AES128GCMKeyTemplate())), true, true},
+		{"kms-envelope/HMAC-dek (refused by its key manager)", envelopeTemplate("fake-kms://c11-kek", mac.HMACSHA256Tag128KeyTemplate()), false, false},
 	}
 }
 
@@ -200,7 +224,7 @@ func TestManagerHistories(t *testing.T) {
 		var everSeen []uint32
 		var history []string
 		failedOps, stateChanges, promotes, afterPromoteChange := 0, 0, 0, false
-		annotOps := 0
+		annotOps, repeatedOpts := 0, 0
 		actionCount := map[string]int{}
 		log := func(f string, a ...any) { history = append(history, fmt.Sprintf(f, a...)) }
 		fail := func(f string, a ...any) {
@@ -337,33 +361,70 @@ func TestManagerHistories(t *testing.T) {
 				withReq := rapid.Bool().Draw(rt, "withreq")
 				id := drawID(rt, "id", p.mod, everSeen)
 				k := aesKey(rt, withReq, id)
-				var opts []keyset.KeyOpts
-				status := keyset.Enabled
+				// the option list: each option at most once in a drawn order, and in one case out of four
+				// one option a second time with another value.  The library applies options in order:
+				// WithStatus and WithFixedID overwrite (the last value counts), AsPrimary is idempotent,
+				// and EVERY WithFixedID that contradicts the key's own ID requirement is an error,
+				// also when a later one agrees (observed on the unchanged library; the model follows it).
+				type optSpec struct {
+					kind   string
+					status keyset.KeyStatus
+					id     uint32
+				}
+				var specs []optSpec
 				if rapid.Bool().Draw(rt, "setstatus") {
-					status = rapid.SampledFrom(statuses).Draw(rt, "status")
-					opts = append(opts, keyset.WithStatus(status))
+					specs = append(specs, optSpec{kind: "status", status: rapid.SampledFrom(statuses).Draw(rt, "status")})
 				}
-				fixed, fixedID := false, uint32(0)
 				if rapid.IntRange(0, 2).Draw(rt, "fixed") == 0 {
-					fixed = true
-					fixedID = id
+					fid := id
 					if rapid.IntRange(0, 3).Draw(rt, "otherfixed") == 0 {
-						fixedID = drawID(rt, "fixedid", p.mod, everSeen)
+						fid = drawID(rt, "fixedid", p.mod, everSeen)
 					}
-					opts = append(opts, keyset.WithFixedID(fixedID))
+					specs = append(specs, optSpec{kind: "fixed", id: fid})
 				}
-				primary := rapid.IntRange(0, 2).Draw(rt, "asprimary") == 0
-				if primary {
-					opts = append(opts, keyset.AsPrimary())
+				if rapid.IntRange(0, 2).Draw(rt, "asprimary") == 0 {
+					specs = append(specs, optSpec{kind: "primary"})
 				}
-				op := fmt.Sprintf("AddKeyWithOpts(req=%v id=%d status=%v fixed=%v/%d primary=%v)", withReq, id, status, fixed, fixedID, primary)
+				if len(specs) > 0 && rapid.IntRange(0, 3).Draw(rt, "repeat_option") == 0 {
+					switch rapid.SampledFrom([]string{"status", "fixed", "primary"}).Draw(rt, "repeated") {
+					case "status":
+						specs = append(specs, optSpec{kind: "status", status: rapid.SampledFrom(statuses).Draw(rt, "status2")})
+					case "fixed":
+						fid := id
+						if rapid.Bool().Draw(rt, "otherfixed2") {
+							fid = drawID(rt, "fixedid2", p.mod, everSeen)
+						}
+						specs = append(specs, optSpec{kind: "fixed", id: fid})
+					default:
+						specs = append(specs, optSpec{kind: "primary"})
+					}
+					repeatedOpts++
+				}
+				if len(specs) > 1 {
+					specs = rapid.Permutation(specs).Draw(rt, "option_order")
+				}
+				var opts []keyset.KeyOpts
+				var optNames []string
+				status, fixed, fixedID, primary, fixedMismatch := keyset.Enabled, false, uint32(0), false, false
+				for _, o := range specs {
+					switch o.kind {
+					case "status":
+						opts, status = append(opts, keyset.WithStatus(o.status)), o.status
+						optNames = append(optNames, fmt.Sprintf("WithStatus(%v)", o.status))
+					case "fixed":
+						opts, fixed, fixedID = append(opts, keyset.WithFixedID(o.id)), true, o.id
+						fixedMismatch = fixedMismatch || (withReq && o.id != id)
+						optNames = append(optNames, fmt.Sprintf("WithFixedID(%d)", o.id))
+					default:
+						opts, primary = append(opts, keyset.AsPrimary()), true
+						optNames = append(optNames, "AsPrimary")
+					}
+				}
+				op := fmt.Sprintf("AddKeyWithOpts(req=%v id=%d opts=[%s])", withReq, id, strings.Join(optNames, " "))
 				// model
-				expectErr, lenient := false, false
+				expectErr, lenient := fixedMismatch, false
 				effFixed, effID := withReq, id
 				if fixed {
-					if withReq && fixedID != id {
-						expectErr = true
-					}
 					effFixed, effID = true, fixedID
 				}
 				if status == keyset.Unknown || (primary && status != keyset.Enabled) {
@@ -495,8 +556,44 @@ func TestManagerHistories(t *testing.T) {
 				annotOps++
 			},
 			"NewManagerFromHandle": func(rt *rapid.T) {
-				if len(handles) == 0 || len(pairs) >= 3 {
-					rt.Skip("no handle yet / enough managers")
+				if len(pairs) >= 3 {
+					rt.Skip("enough managers")
+				}
+				// second handle source: the proto keyset of a manager's current state (written from the
+				// MODEL: IDs, statuses, primary; keys serialized one by one, RAW keys keep their keyset ID)
+				// read with insecurecleartextkeyset.Read(MemReaderWriter)
+				if src := pick(); src.mod.hasPrimary() && rapid.IntRange(0, 2).Draw(rt, "from_proto") == 0 {
+					ks := &tinkpb.Keyset{}
+					for _, e := range src.mod.entries {
+						ser, err := protoserialization.SerializeKey(e.key)
+						if err != nil {
+							fail("harness: SerializeKey of model entry %d: %v", e.id, err)
+						}
+						st := map[keyset.KeyStatus]tinkpb.KeyStatusType{keyset.Enabled: tinkpb.KeyStatusType_ENABLED, keyset.Disabled: tinkpb.KeyStatusType_DISABLED, keyset.Destroyed: tinkpb.KeyStatusType_DESTROYED}[e.status]
+						ks.Key = append(ks.Key, &tinkpb.Keyset_Key{KeyData: ser.KeyData(), Status: st, KeyId: e.id, OutputPrefixType: ser.OutputPrefixType()})
+						if e.primary {
+							ks.PrimaryKeyId = e.id
+						}
+					}
+					h, err := insecurecleartextkeyset.Read(&keyset.MemReaderWriter{Keyset: ks})
+					if err != nil {
+						fail("insecurecleartextkeyset.Read of the proto form of a well-formed manager state %v: %v", src.mod, err)
+					}
+					m := &model{entries: append([]mEntry{}, src.mod.entries...), used: map[uint32]bool{}}
+					for _, e := range m.entries {
+						m.used[e.id] = true
+					}
+					checkHandle(fail, h, m.entries, "", "handle read from the proto form of the model")
+					pairs = append(pairs, &pair{mgr: keyset.NewManagerFromHandle(h), mod: m})
+					if len(handles) < 6 {
+						handles = append(handles, savedHandle{h: h, entries: append([]mEntry{}, m.entries...), info: h.KeysetInfo().String(), annot: maps.Clone(h.Annotations(internalapi.Token{}))})
+					}
+					actionCount["NewManagerFromHandle(proto)"]++
+					log("NewManagerFromHandle(insecurecleartextkeyset.Read(MemReaderWriter{%v}))", m)
+					return
+				}
+				if len(handles) == 0 {
+					rt.Skip("no handle yet")
 				}
 				sh := handles[rapid.IntRange(0, len(handles)-1).Draw(rt, "handle")]
 				m := &model{entries: append([]mEntry{}, sh.entries...), used: map[uint32]bool{}}
@@ -563,6 +660,7 @@ func TestManagerHistories(t *testing.T) {
 		}
 		evid.Add("failed_ops", int64(failedOps))
 		evid.Add("set_annotations_ops", int64(annotOps))
+		evid.Add("addkeywithopts_repeated_option", int64(repeatedOpts))
 		evid.Add("steps", int64(len(history)))
 		class := fmt.Sprintf("len=%s/failed=%s/managers=%d", bucket(len(history)), bucket(failedOps), len(pairs))
 		evid.Case(class, nontrivial, h.Sum(), func() any { return history })
